@@ -165,7 +165,14 @@ func (w *world) candidates(r *coqfmt.Rng, p policy, allowNew bool) []cand {
 	if w.monAlive() {
 		if w.monPoint == "mon.loop" {
 			if arms := w.monArms(); len(arms) == 1 {
-				add(arms[0], p.mon)
+				l := arms[0]
+				if l.Src == "offer" {
+					// a quarter of the blocking reports lose their context while the monitor stacks and verifies them
+					if t := w.threads[l.Tid]; t.op.Msg.K == "update" && t.op.Msg.Blocking && !t.cancelled && r.Chance(1, 4) {
+						l.MidCancel = true
+					}
+				}
+				add(l, p.mon)
 			} else if len(arms) > 1 {
 				add(label{K: "recv"}, p.mon) // Go picks the arm; the harness observes which
 			}
@@ -221,8 +228,11 @@ func (w *world) candidates(r *coqfmt.Rng, p policy, allowNew bool) []cand {
 			// updates of a Blank go through SetSource (a blocking report)
 			if !w.blankBusy(src) {
 				via := "static"
-				if r.Chance(1, 4) {
+				switch x := r.Intn(8); {
+				case x < 2:
 					via = "watcher"
+				case x < 5:
+					via = "reload" // the same non-watching source object again, with new contents
 				}
 				start(&opT{K: "offer", Via: via, Msg: &msgT{K: "update", Src: src, V: w.genValue(r, p), Blocking: true}}, p.report)
 			}
@@ -628,6 +638,21 @@ var scripts = map[string]script{
 			w.drainCb() // both handles hear about every further version
 		}
 	}},
+	// C05/C07: the reporter's context ends while the monitor is inside Verify for its value: the value is
+	// installed all the same (the slot and the view stay in step), the reporter gets its context error
+	"cancel-during-verify": {setupT{Def: [3]int{1, 5, 0}, Watching: []bool{true, true}, Inits: []svJSON{{}, {}}}, func(w *world) {
+		t1 := w.startOp(&opT{K: "offer", Msg: &msgT{K: "update", Src: 0, V: svJSON{C: iptr(7)}, Blocking: true}})
+		w.do(label{K: "recv", Src: "offer", Tid: t1, MidCancel: true})
+		w.drainMon()
+		w.finish(t1)
+		w.report(1, svJSON{B: iptr(8)}, true) // another source: the stack must already contain C=7
+		w.drainMon()
+		t2 := w.startOp(&opT{K: "offer", Msg: &msgT{K: "update", Src: 0, V: svJSON{A: iptr(9)}, Blocking: true}})
+		w.do(label{K: "recv", Src: "offer", Tid: t2, MidCancel: true}) // rejected by Verify, cancelled meanwhile
+		w.drainMon()
+		w.finish(t2)
+		w.drainCb()
+	}},
 	// C05: a source that keeps one buffer, mutates it in place and reports the same pointer again -
 	// first the very pointer it returned from Value()
 	"same-buffer": {setupT{Def: [3]int{1, 5, 0}, Watching: []bool{true, true}, Inits: []svJSON{{C: iptr(1)}, {}}}, func(w *world) {
@@ -675,6 +700,9 @@ var scripts = map[string]script{
 		}
 		set("static", svJSON{C: iptr(3)})
 		set("static", svJSON{A: iptr(9)}) // fails Verify: SetSource returns the error, view unchanged
+		set("reload", svJSON{C: iptr(6)})
+		set("reload", svJSON{C: iptr(7)}) // the same source object, re-read: must be stacked again
+		set("reload", svJSON{A: iptr(9)}) // and its new content rejected with the error
 		set("watcher", svJSON{C: iptr(4)})
 		w.report(0, svJSON{C: iptr(5)}, true) // the Watcher inner source now reports by itself
 		w.drainMon()
@@ -774,7 +802,7 @@ func init() {
 
 var scriptOrder = []string{"late-register", "double-unregister", "srcerr-delay-nosuppress", "srcerr-after-enable-suppress",
 	"enable-nomon", "enable-nomon-invalid", "race-register-after-store", "race-catchup", "abandoned-caller",
-	"blocked-callback", "overflow", "overflow-then-register", "same-buffer", "rejections", "enable-retry", "blank-setsource"}
+	"blocked-callback", "overflow", "overflow-then-register", "same-buffer", "cancel-during-verify", "rejections", "enable-retry", "blank-setsource"}
 
 func init() {
 	for _, n := range scriptOrder {
